@@ -8,7 +8,7 @@ import re
 import shutil
 from typing import Callable, Dict, List, Optional
 
-from .. import tlc, naming, cue, cli
+from .. import tlc, naming, cue, cli, listing
 from ..core import Check
 from .. import repo
 from ..writers import akai as aw, roland as rw
@@ -160,6 +160,7 @@ def run(chk: Check):
         for i, c in enumerate(picked):
             check_case(chk, plan, c, chk.seed + i)
     cli.check(chk, "ls")          # the paths reach ls through the command line as typed (spec/Cli.tla)
+    listing.check_table(chk)      # the names can be read off the listing again: column layout of InfoTable (spec/Table.tla)
     chk.exhaustive = True
     chk.sample({"names": ["A:", "A", ":A"], "printed": ["A:", "A", "A (2)"]})
     chk.assumptions += ["items are identified in ls output by a header value / child name unique to each sibling",
